@@ -27,7 +27,6 @@ What is replaced (all of it C-level, I/O, or text that would force every integer
   * eliot actions (start_action, DeferredContext) are no-ops; defer_to_thread runs inline; twisted.web.http (a deprecation
     proxy module) is a plain namespace of the same status constants.
 """
-import io
 import re
 
 from vlib import hlib
@@ -966,10 +965,12 @@ class Loopback(object):
         req.finish()
 
 
-hlib.encoded(hs.HTTPServer.__init__, hs.HTTPServer._send_encoded, hs._ReadAllProducer.produce_to, hs._ReadAllProducer.resumeProducing,
-             hs._authorization_decorator, hs._extract_secrets, hs.read_encoded,
-             hc.StorageClient.request, hc.StorageClient._request, hc.StorageClient.decode_cbor, hc.StorageClient._get_headers,
-             hc.StorageClient.relative_url)
+hlib.encoded(hs.HTTPServer.__init__, hs._authorization_decorator, hs.read_encoded, hc.StorageClient.request, hc.StorageClient.decode_cbor, _real_relative_url)
+for (_owner, _names) in ((hs.HTTPServer, ("_send_encoded",)), (hs._ReadAllProducer, ("produce_to", "resumeProducing")), (hs, ("_extract_secrets",)),
+                         (hc.StorageClient, ("_request", "_get_headers"))):
+    for _n in _names:
+        if getattr(_owner, _n, None) is not None:
+            hlib.encoded(getattr(_owner, _n))
 
 
 
